@@ -41,10 +41,32 @@ structure MetaEvent where
   change : MetaChange
   deriving DecidableEq, Repr, Inhabited
 
-structure Ledger where
-  txs : List TxRec := []
-  metaEvents : List MetaEvent := []
+/-- One committed write, in commit order.  The Spec state is just the list of these. -/
+inductive Event where
+  /-- a transaction was committed (`revertedAt = none`), with the account metadata it carried -/
+  | committed (t : TxRec) (accountMeta : Map String Metadata)
+  /-- transaction `id` was marked reverted at `at_` (its revert transaction is a separate `committed`) -/
+  | reverted (id : Nat) (at_ : Int)
+  /-- metadata saved / deleted on an account or a transaction -/
+  | metaWrite (e : MetaEvent)
   deriving Repr, Inhabited
+
+/-- The abstract reference ledger: the journal of committed writes. -/
+structure Ledger where
+  events : List Event := []
+  deriving Repr, Inhabited
+
+def markRevertedIn (txs : List TxRec) (id : Nat) (at_ : Int) : List TxRec :=
+  txs.map fun t => if t.id = id ∧ t.revertedAt = none then { t with revertedAt := some at_ } else t
+
+/-- The committed transactions in commit order, with their `revertedAt` marks. -/
+def txsOf : List Event → List TxRec → List TxRec
+  | [], acc => acc
+  | .committed t _ :: es, acc => txsOf es (acc ++ [t])
+  | .reverted id a :: es, acc => txsOf es (markRevertedIn acc id a)
+  | .metaWrite _ :: es, acc => txsOf es acc
+
+def Ledger.txs (l : Ledger) : List TxRec := txsOf l.events []
 
 /-! ### sums over postings -/
 
@@ -171,21 +193,33 @@ def balanceAt (txs : List TxRec) (w : Window) (mode : DateMode) (k : Key) : Int 
 def TxRec.involves (t : TxRec) (a : String) : Bool :=
   t.postings.any (fun p => p.source == a || p.destination == a)
 
-def optMin : Option Int → Int → Option Int
-  | none, x => some x
-  | some m, x => some (if x < m then x else m)
+/-- `(first_usage, insertion_date)` of an account, `none` = the account does not exist.
+    A transaction involving the account (or carrying metadata for it) lowers `first_usage` to
+    its timestamp and creates the account at its insertion date; metadata saved directly on a
+    not-yet-existing account creates it with both dates = the write's date, and leaves an
+    existing account's dates alone. -/
+def accountDatesStep (a : String) (cur : Option (Int × Int)) : Event → Option (Int × Int)
+  | .committed t am =>
+    if t.involves a || am.contains a then
+      match cur with
+      | none => some (t.timestamp, t.insertedAt)
+      | some (fu, ins) => some (if t.timestamp < fu then t.timestamp else fu, ins)
+    else cur
+  | .metaWrite { target := .account a', date := d, change := .save _ } =>
+    if a' = a then (match cur with | none => some (d, d) | some c => some c) else cur
+  | _ => cur
 
-/-- Dates at which account `a` was "used": effective timestamps of the transactions
-    involving it and dates of the metadata saved on it. -/
-def usageDates (l : Ledger) (a : String) : List Int :=
-  (l.txs.filter (·.involves a)).map (·.timestamp) ++
-  (l.metaEvents.filterMap fun e =>
-    match e.target, e.change with
-    | .account a', .save _ => if a' = a then some e.date else none
-    | _, _ => none)
+def accountDates (l : Ledger) (a : String) : Option (Int × Int) :=
+  l.events.foldl (accountDatesStep a) none
 
-/-- Earliest usage; `none` = the account does not exist. -/
-def firstUsage (l : Ledger) (a : String) : Option Int := (usageDates l a).foldl optMin none
+def firstUsage (l : Ledger) (a : String) : Option Int := (accountDates l a).map (·.1)
+def insertionDate (l : Ledger) (a : String) : Option Int := (accountDates l a).map (·.2)
+
+/-- accounts existing at point in time `t`: `first_usage ≤ t` -/
+def accountExistsAt (l : Ledger) (a : String) (t : Int) : Bool :=
+  match firstUsage l a with
+  | some fu => decide (fu ≤ t)
+  | none => false
 
 /-! ### metadata -/
 
@@ -193,10 +227,23 @@ def applyChange (m : Metadata) : MetaChange → Metadata
   | .save kv => kv.foldl (fun acc e => acc.insert e.1 e.2) m
   | .delete key => m.erase key
 
-/-- Metadata of `target` after the events dated `≤ t` (`none` = all), starting from `init`. -/
-def metaAt (events : List MetaEvent) (target : Target) (init : Metadata) (t : Option Int) : Metadata :=
-  (events.filter fun e => e.target = target && (match t with | none => true | some t => decide (e.date ≤ t))).foldl
-    (fun m e => applyChange m e.change) init
+def metaStep (target : Target) (t : Option Int) (m : Metadata) : Event → Metadata
+  | .committed tx am =>
+    let inTime := match t with | none => true | some t => decide (tx.insertedAt ≤ t)
+    if !inTime then m else
+    match target with
+    | .tx id => if tx.id = id then applyChange m (.save tx.metadata) else m
+    | .account a => match am.get? a with
+      | some kv => applyChange m (.save kv)
+      | none => m
+  | .metaWrite e =>
+    let inTime := match t with | none => true | some t => decide (e.date ≤ t)
+    if e.target = target && inTime then applyChange m e.change else m
+  | .reverted _ _ => m
+
+/-- Metadata of `target` after the writes dated `≤ t` (`none` = all of them). -/
+def metaAt (l : Ledger) (target : Target) (t : Option Int) : Metadata :=
+  l.events.foldl (metaStep target t) []
 
 /-- Transaction as seen at `t`: present iff `timestamp ≤ t`; reverted iff `revertedAt ≤ t`. -/
 def txAt (t : Int) (tx : TxRec) : Option TxRec :=
